@@ -126,9 +126,13 @@ func (p *authProp) Gen(r *Rand, tier string, idx int) any {
 		q.Global = r.Chance(0.3)
 		ap.Reqs = append(ap.Reqs, q)
 	}
-	if ap.Cache == "single" {
+	if ap.Cache == "single" && r.Chance(0.5) {
 		// the single-context cache is documented for one context per host (e.g. one
-		// repository): every request to a host asks for the same scope
+		// repository): in half of its scenarios every request to a host asks for the
+		// same scope. In the other half scopes differ: the cache then by design offers a
+		// token of another scope set first (clause 5 is judged for the shared cache only),
+		// but each request must still end with the registry's non-401 answer within the
+		// send and fetch bounds.
 		first := map[int]AuthReq{}
 		for i, q := range ap.Reqs {
 			if f, ok := first[q.Host]; ok {
